@@ -53,6 +53,12 @@ pub fn menu() -> Vec<Entry> {
     entry("no-name-scroll-leds", 14, None, Some("/devices/platform/u/input/input14"), Some("120013"), Some(MOUSE_KEYS)),
     entry("no-name-mousey", 15, None, Some("/devices/platform/t/input/input15"), Some("100017"), Some(MOUSE_KEYS)),
     entry("mouse-name-leds", 16, Some("Fancy Mouse Pad"), Some("/devices/platform/s/input/input16"), Some("120013"), Some(KB_KEYS)),
+    // key-count threshold (20 keys) and the "normal keys" threshold (3), with and without a bit-63 key (F5 = 63)
+    entry("macro-pad-20-keys-with-f5", 17, Some("Macro Pad"), Some("/devices/platform/r/input/input17"), Some("120013"), Some("B: KEY=fa0000001000cffe")),
+    entry("macro-pad-19-keys", 18, Some("Macro Pad"), Some("/devices/platform/q/input/input18"), Some("120013"), Some("B: KEY=7a0000001000cffe")),
+    entry("macro-pad-20-keys-no-f5", 19, Some("Macro Pad"), Some("/devices/platform/p/input/input19"), Some("120013"), Some("B: KEY=7a0000003000cffe")),
+    entry("two-normal-keys-only", 22, Some("Button Box"), Some("/devices/platform/o/input/input22"), Some("120013"), Some("B: KEY=ffffff 0 0 0 10000002")),
+    entry("three-normal-keys", 23, Some("Button Box"), Some("/devices/platform/n/input/input23"), Some("120013"), Some("B: KEY=ffffff 0 0 0 10004002")),
   ]
 }
 
@@ -86,7 +92,7 @@ pub fn run(ctx: &Ctx) -> Outcome {
   let menu = menu();
   let k = menu.len();
   let single: Vec<(Vec<(String, String)>, Vec<(String, String, bool)>)> = menu.iter().map(|e| (crate::keyboard_listing::verif_extract_keyboards(&e.text), crate::keyboard_listing::verif_extract_input_devices(&e.text))).collect();
-  let maxlen = if q { 3 } else { 4 };
+  let maxlen = if q { 2 } else { 4 };
   let mut total = 0usize;
   for l in 1..=maxlen { total += k.pow(l as u32); }
   #[derive(Default)]
